@@ -135,7 +135,7 @@ let areply_of (e : lent) : areply =
 let rreply_of (e : lent) : rreply =
   match e.e_cls with
   | 0 | 2 | 5 | 6 -> RReceipt (n_of_int e.e_v1, n_of_int e.e_v2, n_of_int e.e_v3, true)
-  | 1 -> RReceipt (n_of_int e.e_v1, n_of_int e.e_v2, n_of_int e.e_v3, false)
+  | 1 | 7 -> RReceipt (n_of_int e.e_v1, n_of_int e.e_v2, n_of_int e.e_v3, false)   (* signed by another key / for another user *)
   | 4 -> RApiErr
   | _ -> RDeserErr
 
